@@ -135,7 +135,7 @@ def run(prog: Program, roots=None, prop="C08") -> Results:
                     f"{k} uses `{norm(bad)}`: a reflective write would be invisible to the mutate-then-raise analysis")
     if prop == "C08":
         refusal_guards(prog, res)
-        fallback_handlers(prog, res, closure)
+        fallback_handlers(prog, res, closure, eng=eng, bykey=bykey)
         from sa.rules.c05 import callee_head_acceptance
         callee_head_acceptance(prog, res, "R-C08-5", res.rules["R-C08-5"])
         # (d) a path running through an inherited (non-set) name is refused, not papered over (shared with R-C05-10)
@@ -227,7 +227,32 @@ REVIEWED_FALLBACKS = {
 }
 
 
-def fallback_handlers(prog: Program, res: Results, closure, rid: str = "R-C08-6") -> None:
+def _local_control_flow(prog: Program, eng, bykey, k: str, try_node: ast.Try) -> bool:
+    """every exception the handlers of `try_node` receive is raised by a `raise` statement written in the try body itself
+    (per the effect engine: no callee of the body can raise a caught class).  Such a handler is a jump inside one function
+    (`raise KeyError(k)` … `except KeyError: return None` ≡ `return None` at that point): no refusal made elsewhere is swallowed."""
+    if eng is None:
+        return False
+    sums = bykey.get(k) or bykey.get(prog.reviewed_key(k)) or []
+    f = prog.funcs.get(k)
+    if f is not None and f.parent is not None:
+        sums = sums or bykey.get(f.parent.key) or []
+    if not sums and f is not None:
+        try:
+            sums = [eng.summarize((f.parent or f).key)]  # a function outside the closure of the roots: summarised on its own
+        except Exception:
+            return False
+    srcs = set()
+    for s_ in sums:
+        srcs |= s_.try_sources.get(id(try_node), set())
+    if not srcs:
+        return False
+    own = {id(n) for b in try_node.body for n in walk_no_nested(b) if isinstance(n, ast.Raise)} | \
+          {id(b) for b in try_node.body if isinstance(b, ast.Raise)}
+    return all(what == "raise" and id(node) in own for what, node, _exc in srcs)
+
+
+def fallback_handlers(prog: Program, res: Results, closure, rid: str = "R-C08-6", eng=None, bykey=None) -> None:
     """R-C08-6: who may swallow an exception in the edit closure"""
     from sa.dtable import outcome
     from sa.util import handler_names
@@ -261,6 +286,9 @@ def fallback_handlers(prog: Program, res: Results, closure, rid: str = "R-C08-6"
                 always = bool(o.paths) and all(p_ and p_[-1].startswith("raise") for p_ in o.paths)
                 if always:
                     r.ob(True, {"site": k, "catches": handler_names(h), "kind": "converts and re-raises"})
+                    continue
+                if _local_control_flow(prog, eng, bykey or {}, k, n):
+                    r.ob(True, {"site": k, "catches": handler_names(h), "kind": "catches only the raise statements of its own try body (a jump inside the function)"})
                     continue
                 from sa.report import _site
                 from sa.model import alpha as _alpha
